@@ -222,36 +222,21 @@ def _check_limit(ctx: Ctx, model) -> None:
     else:
         ctx.violation("R2.4", "_calculate_limit:source", fi.module, fi.node,
                       "_calculate_limit must take limit(obj.to_sympy(substitute=True), <symbol>, f)")
-    # to_sympy substitutes every key of get_values() (and every sub-circuit)
+    # to_sympy substitutes every key of get_values() (and every sub-circuit): decided by interpreting the function over
+    # the finite abstraction of its inputs (see sa/checks/_naming.py)
+    from ._naming import naming_problems
     for qual, need_sub in (("Element.to_sympy", False), ("Container.to_sympy", True)):
         f2 = model.fi(BASE, qual)
-        ctx.instance("R2.4", qual)
-        loops = [n for n in walk_ordered(f2.node) if isinstance(n, ast.For)]
-        val_loop = [l for l in loops if norm(l.iter) == "values.items()"]
-        vals_def = [n for n in walk_ordered(f2.node) if isinstance(n, (ast.Assign, ast.AnnAssign))
-                    and norm(n.targets[0] if isinstance(n, ast.Assign) else n.target) == "values"
-                    and n.value is not None and norm(n.value) == "self.get_values()"]
-        good = bool(val_loop) and bool(vals_def)
-        if good:
-            l = val_loop[0]
-            stores = [n for n in walk_ordered(l) if isinstance(n, ast.Assign) and norm(n.targets[0]) == "substitutions[key]"]
-            # the store must be unconditional at loop-body level
-            good = any(s in l.body for s in stores)
-        if need_sub and good:
-            sub_loop = [l for l in loops if norm(l.iter) == "subcircuits.items()"]
-            good = bool(sub_loop) and any(
-                isinstance(n, ast.Assign) and norm(n.targets[0]) == "substitutions[key]" and n in sub_loop[0].body
-                for n in walk_ordered(sub_loop[0]))
-        rets = [n for n in walk_ordered(f2.node) if isinstance(n, ast.Return)]
-        good = good and len(rets) == 1 and isinstance(rets[0].value, ast.Call) and isinstance(rets[0].value.func, ast.Attribute) \
-            and rets[0].value.func.attr == "subs" and norm(rets[0].value.args[0]) == "substitutions" \
-            and dotted(rets[0].value.func.value).startswith("self._sympy")
-        if good:
+        probs, n_in = naming_problems(model, qual)
+        ctx.instance("R2.4", f"{qual}: substitution table on {n_in} abstract inputs")
+        bad = [p_ for p_ in probs if p_["kind"] in ("substitution", "result", "raises")]
+        if not bad:
             ctx.ok()
         else:
+            p0 = bad[0]
             ctx.violation("R2.4", f"{qual}:substitution", f2.module, f2.node,
-                          f"{qual} must return self._sympy(...).subs(substitutions) with one entry per get_values() key"
-                          + (" and per sub-circuit" if need_sub else ""))
+                          f"{qual} must return self._sympy(...).subs(table) with one entry per get_values() key"
+                          + (" and per sub-circuit" if need_sub else "") + f"; for {p0['input']} it gives {p0['got']} instead of {p0['want']}")
 
 
 # ---------------------------------------------------------------------------
